@@ -101,7 +101,7 @@ def expect_failure(sess, case, prog, root, style, node, excname, sigs, already_s
         exp, _ = M.expected_value(prog, root)
         if res["exc"] is not None or res["value"] != exp:
             raise Violation(f"{when}: expected {exp!r} (the failing function is served from the store) but got {res['exc'] or res['value']!r}", case)
-        return set(), [], set(res.get("stored", []))
+        return set(), [], set(res.get("stored", [])), True
     completed, stack = cf
     if res["exc"] is None and may_be_cached and node not in res["log"]:
         # the failing function never ran: the evaluated root itself was served from the store (dds.eval serves the root
@@ -109,7 +109,7 @@ def expect_failure(sess, case, prog, root, style, node, excname, sigs, already_s
         exp, _ = M.expected_value(prog, root)
         if res["value"] != exp:
             raise Violation(f"{when}: returned {res['value']!r}, plain execution gives {exp!r}", case)
-        return set(), [], set(res.get("stored", []))
+        return set(), [], set(res.get("stored", [])), True
     if res["exc"] is None:
         raise Violation(f"{when}: {node} raised {excname} but the evaluation returned {res['value']!r}", case)
     if not res["exc"]["same_object"]:
@@ -132,7 +132,7 @@ def expect_failure(sess, case, prog, root, style, node, excname, sigs, already_s
             raise Violation(f"{when}: blob files exist for signatures that never completed: {sorted(k[:8] for k in extra)}", case)
         if data_links(sess) != links0:
             raise Violation(f"{when}: the data directory changed although the evaluation failed", case)
-    return completed, stack, set(res.get("stored", []))
+    return completed, stack, set(res.get("stored", [])), False
 
 
 def check_committed(sess, it, when, case):
@@ -143,6 +143,20 @@ def check_committed(sess, it, when, case):
             raise Violation(f"{when}: the evaluation succeeded but its path {p} does not load: {r['exc']['type']}: {r['exc']['msg'][:200]}", case)
         if r["value"] != v:
             raise Violation(f"{when}: the evaluation succeeded but its path {p} loads {r['value']!r}, kept value {v!r}", case)
+
+
+def check_path_state(sess, all_paths, committed, when, case):
+    """every path serves what the last SUCCESSFUL evaluation that kept it returned; a path kept only by failed evaluations
+    is absent (also after later evaluations of other pipelines)"""
+    for p in all_paths:
+        r = sess.load(p)
+        if p in committed:
+            if r["exc"] is not None or r["value"] != committed[p]:
+                raise Violation(f"{when}: the path {p} loads {r['exc']['type'] if r['exc'] else repr(r['value'])}, the last successful evaluation kept {committed[p]!r}", case)
+        elif r["exc"] is None:
+            raise Violation(f"{when}: the path {p} loads {r['value']!r} although no successful evaluation has kept it (it belongs to an evaluation that failed)", case)
+        elif not r["exc"]["is_dds"]:
+            raise Violation(f"{when}: loading the never committed path {p} raised {r['exc']['type']}: {r['exc']['msg'][:200]} instead of a DDS error", case)
 
 
 def check_case(case, ev=None, scratch=None):
@@ -166,8 +180,13 @@ def check_case(case, ev=None, scratch=None):
         sess.root = twin.root
         sess.prog = prog
         sess.start()
-        completed, stack, stored = expect_failure(sess, case, prog, root, style, case["node"], case["exc"], sigs, set(), "first evaluation")
+        all_paths = sorted({s_["path"] for (e_, st_) in G.entries(prog) for s_ in M.kept_sites(prog, e_)})
+        committed = {}
+        completed, stack, stored, succeeded = expect_failure(sess, case, prog, root, style, case["node"], case["exc"], sigs, set(), "first evaluation")
         all_stored = set(stored)
+        if succeeded:
+            committed.update(M.expected_value(prog, root)[1].kept)
+        check_path_state(sess, all_paths, committed, "after the first (failing) evaluation", case)
         for fi, fol in enumerate(case["follow"]):
             when = f"follow-up {fi} ({fol})"
             if fol == "same":
@@ -185,6 +204,8 @@ def check_case(case, ev=None, scratch=None):
                     if p in sigs and sigs[p] != k:
                         raise Violation(f"{when}: signature of {p} differs from the fault-free twin run", case)
                 check_committed(sess, it, when, case)
+                committed.update(it.kept)
+                check_path_state(sess, all_paths, committed, when, case)
                 all_stored |= set(res.get("stored", []))
             elif fol == "other":
                 ents = [e for e in G.entries(prog) if e[1] == "eval"]
@@ -194,11 +215,16 @@ def check_case(case, ev=None, scratch=None):
                 if res["exc"] is not None or res["value"] != exp:
                     raise Violation(f"{when}: evaluating f{r2} after the failure gave {res['exc'] or res['value']!r}, expected {exp!r}", case)
                 check_committed(sess, it, when, case)
+                committed.update(it.kept)
+                check_path_state(sess, all_paths, committed, when, case)
                 all_stored |= set(res.get("stored", []))
             else:
-                _c, _s, st2 = expect_failure(sess, case, prog, root, style, case["node2"], case["exc2"], sigs, all_stored, when,
-                                             may_be_cached=True)
+                _c, _s, st2, succeeded = expect_failure(sess, case, prog, root, style, case["node2"], case["exc2"], sigs, all_stored, when,
+                                                        may_be_cached=True)
                 all_stored |= st2
+                if succeeded:
+                    committed.update(M.expected_value(prog, root)[1].kept)
+                check_path_state(sess, all_paths, committed, when, case)
         if ev is not None:
             sites = M.kept_sites(prog, root)
             nt = len(completed) >= 1 and len(stack) >= 1
